@@ -87,7 +87,7 @@ def evaluate(ctx, cases):
         if isinstance(res[0], str) and isinstance(res[1], str):
             ctx.hist('outcome', 'both raised (C01)')
             out.append(Result(c, sig=key, nontrivial=False, info=dict(skipped=res[0]))); continue
-        if any(isinstance(r, str) and 'transition band' in r for r in res):
+        if c['kind'] == 'rate' and any(isinstance(r, str) and 'transition band' in r for r in res):      # (an amplitude rescaling changes neither rate nor band: the kernel cannot refuse one run only)
             ctx.hist('outcome', 'kernel-refused (filter definition)')
             out.append(Result(c, sig=key, nontrivial=False, info=dict(skipped='neurodsp refused the filter definition'))); continue
         if isinstance(res[0], str) or isinstance(res[1], str):
